@@ -432,7 +432,28 @@ pub fn case(ctx: &mut Ctx, idx: u64) {
         let d = spec.to_difficulty(m);
         let gm = spec.mods.to_gamemods(m);
         if let (Ok(Ok(attrs)), Ok(Ok(conv))) = (guard(|| api::calc_for_mode(&d, &map, m)), guard(|| api::convert(&map, m, &gm))) {
-            let b = bracket("attributes::build", || conv.attributes().difficulty(&d).build());
+            let b_via_difficulty = bracket("attributes::build", || conv.attributes().difficulty(&d).build());
+            // the same settings handed to the builder through its own setters
+            let b_via_setters = bracket("attributes::build", || {
+                let mut bb = conv.attributes().mods(gm.clone());
+                if let Some(c) = spec.clock {
+                    // the property quantifies over custom clock rates in [0.01, 100] (Difficulty clamps to that range itself)
+                    bb = bb.clock_rate(c.clamp(0.01, 100.0));
+                }
+                if let Some((v, f)) = spec.ar {
+                    bb = bb.ar(v, f);
+                }
+                if let Some((v, f)) = spec.od {
+                    bb = bb.od(v, f);
+                }
+                if let Some((v, f)) = spec.cs {
+                    bb = bb.cs(v, f);
+                }
+                if let Some((v, f)) = spec.hp {
+                    bb = bb.hp(v, f);
+                }
+                bb.build()
+            });
             // every calculator that stores these values: the one-shot calculation, the gradual calculator on the
             // unconverted map (first and last value) and the difficulty embedded in a performance result
             let mut outputs: Vec<(&str, DifficultyAttributes)> = vec![("one-shot", attrs)];
@@ -447,7 +468,9 @@ pub fn case(ctx: &mut Ctx, idx: u64) {
             if let Ok(p) = guard(|| api::perf_calc(rosu_pp::Performance::new(&map).difficulty(d.clone()).mode_or_ignore(m))) {
                 outputs.push(("performance-embedded", p.difficulty_attributes()));
             }
-            for (label, attrs) in &outputs {
+            let builders = [("difficulty(&d)", &b_via_difficulty), ("own-setters", &b_via_setters)];
+            for (label, attrs) in outputs.iter().flat_map(|o| builders.iter().map(move |bb| (format!("{}/builder:{}", o.0, bb.0), &o.1, bb.1))).map(|(l, a, b)| ((l, b), a)) {
+                let (label, b) = label;
                 ctx.eval();
                 ctx.count("A6_checks");
                 let pairs: Vec<(&str, f64, f64)> = match attrs {
